@@ -17,6 +17,7 @@ fn run_check(id: &str, tier: Tier) -> Result<infra::Report, String> {
     match id {
         "C03" => sim::checks::c03(tier),
         "C04" => sim::checks::c04(tier),
+        "C06" => sim::checks::c06(tier),
         // REGISTRY (run): "CNN" => cNN::run(tier),
         _ => Err(format!("no check registered for {}", id)),
     }
@@ -147,7 +148,11 @@ fn probe(src: &str, workers: usize, quantum: usize) {
 }
 
 fn probe_scenarios() {
-    for sc in sim::scenarios::messaging_all(true) {
+    let mut all = sim::scenarios::messaging_all(true);
+    all.extend(sim::scenarios::bin_all());
+    let filter = std::env::args().nth(2);
+    for sc in all {
+        if let Some(f) = &filter { if !sc.id.contains(f.as_str()) { continue; } }
         println!("=== {}\n{}", sc.id, sc.source);
         for (w, q) in [(1, 1000), (2, 1), (3, 2)] {
             match sim::driver::compile_scenario(&sc) {
